@@ -18,6 +18,7 @@ import (
 	"io"
 	"log"
 	"net"
+	"time"
 
 	"github.com/sirupsen/logrus"
 	"github.com/wmnsk/go-pfcp/ie"
@@ -49,6 +50,9 @@ type ieSpec struct {
 	STag  uint32   `json:"stag"`
 	Hex   string   `json:"hex"`
 	Type  uint16   `json:"type"`
+	UL    uint64   `json:"ul"`
+	DL    uint64   `json:"dl"`
+	Tot   uint64   `json:"tot"`
 }
 
 type gtp5gCase struct {
@@ -158,6 +162,36 @@ func buildIE(s ieSpec) *ie.IE {
 		r = ie.NewPFCPSMReqFlags(uint8(s.V))
 	case "barid":
 		r = ie.NewBARID(uint8(s.V))
+	case "corrid":
+		r = ie.NewQERCorrelationID(uint32(s.V))
+	case "gate":
+		r = ie.NewGateStatus(uint8(s.V)>>2, uint8(s.V)&3)
+	case "mbr":
+		r = ie.NewMBR(s.UL, s.DL)
+	case "gbr":
+		r = ie.NewGBR(s.UL, s.DL)
+	case "qfi":
+		r = ie.NewQFI(uint8(s.V))
+	case "rqi":
+		r = ie.NewRQI(uint8(s.V))
+	case "ppi":
+		r = ie.NewPagingPolicyIndicator(uint8(s.V))
+	case "method":
+		r = ie.NewMeasurementMethod(int(s.V>>2), int(s.V>>1)&1, int(s.V)&1)
+	case "trig":
+		r = ie.NewReportingTriggers(unhex(s.Hex)...)
+	case "period":
+		r = ie.NewMeasurementPeriod(time.Duration(s.V) * time.Second)
+	case "info":
+		r = ie.NewMeasurementInformation(uint8(s.V))
+	case "volthr":
+		r = ie.NewVolumeThreshold(s.Flags, s.Tot, s.UL, s.DL)
+	case "volquota":
+		r = ie.NewVolumeQuota(s.Flags, s.Tot, s.UL, s.DL)
+	case "delay":
+		r = ie.NewDownlinkDataNotificationDelay(time.Duration(s.V) * 50 * time.Millisecond)
+	case "count":
+		r = ie.NewSuggestedBufferingPacketsCount(uint8(s.V))
 	case "raw":
 		r = ie.New(s.Type, unhex(s.Hex))
 	default:
@@ -317,6 +351,106 @@ func absOf(x *ie.IE) absIE {
 			return bad(x.Type)
 		}
 		return absIE{"k": "barid", "v": v}
+	case ie.QERCorrelationID:
+		v, err := x.QERCorrelationID()
+		if err != nil {
+			return bad(x.Type)
+		}
+		return absIE{"k": "corrid", "v": v}
+	case ie.GateStatus:
+		v, err := x.GateStatus()
+		if err != nil {
+			return bad(x.Type)
+		}
+		return absIE{"k": "gate", "v": v}
+	case ie.MBR:
+		ul, err := x.MBRUL()
+		if err != nil {
+			return bad(x.Type)
+		}
+		dl, err := x.MBRDL()
+		if err != nil {
+			return bad(x.Type)
+		}
+		return absIE{"k": "mbr", "ul": ul, "dl": dl}
+	case ie.GBR:
+		ul, err := x.GBRUL()
+		if err != nil {
+			return bad(x.Type)
+		}
+		dl, err := x.GBRDL()
+		if err != nil {
+			return bad(x.Type)
+		}
+		return absIE{"k": "gbr", "ul": ul, "dl": dl}
+	case ie.QFI:
+		v, err := x.QFI()
+		if err != nil {
+			return bad(x.Type)
+		}
+		return absIE{"k": "qfi", "v": v}
+	case ie.RQI:
+		v, err := x.RQI()
+		if err != nil {
+			return bad(x.Type)
+		}
+		return absIE{"k": "rqi", "v": v}
+	case ie.PagingPolicyIndicator:
+		v, err := x.PagingPolicyIndicator()
+		if err != nil {
+			return bad(x.Type)
+		}
+		return absIE{"k": "ppi", "v": v}
+	case ie.MeasurementMethod:
+		v, err := x.MeasurementMethod()
+		if err != nil {
+			return bad(x.Type)
+		}
+		return absIE{"k": "method", "v": v}
+	case ie.ReportingTriggers:
+		v, err := x.ReportingTriggers()
+		if err != nil {
+			return bad(x.Type)
+		}
+		return absIE{"k": "trig", "b": hex.EncodeToString(v)}
+	case ie.MeasurementPeriod:
+		v, err := x.MeasurementPeriod()
+		if err != nil {
+			return bad(x.Type)
+		}
+		return absIE{"k": "period", "ns": int64(v)}
+	case ie.MeasurementInformation:
+		v, err := x.MeasurementInformation()
+		if err != nil {
+			return bad(x.Type)
+		}
+		return absIE{"k": "info", "v": v}
+	case ie.VolumeThreshold:
+		v, err := x.VolumeThreshold()
+		if err != nil {
+			return bad(x.Type)
+		}
+		return absIE{"k": "volthr", "flags": v.Flags, "has": []bool{v.HasTOVOL(), v.HasULVOL(), v.HasDLVOL()},
+			"tot": v.TotalVolume, "ul": v.UplinkVolume, "dl": v.DownlinkVolume}
+	case ie.VolumeQuota:
+		v, err := x.VolumeQuota()
+		if err != nil {
+			return bad(x.Type)
+		}
+		return absIE{"k": "volquota", "flags": v.Flags, "has": []bool{v.HasTOVOL(), v.HasULVOL(), v.HasDLVOL()},
+			"tot": v.TotalVolume, "ul": v.UplinkVolume, "dl": v.DownlinkVolume}
+	case ie.DownlinkDataNotificationDelay:
+		v, err := x.DownlinkDataNotificationDelay()
+		if err != nil {
+			return bad(x.Type)
+		}
+		return absIE{"k": "delay", "ns": int64(v)}
+	case ie.SuggestedBufferingPacketsCount:
+		v, err := x.SuggestedBufferingPacketsCount()
+		if err != nil {
+			return bad(x.Type)
+		}
+		return absIE{"k": "count", "v": v}
 	default:
 		return absIE{"k": "other", "type": x.Type}
 	}
